@@ -16,7 +16,9 @@
        and (ack writes enabled) the wait function it returned.
 
    Deliberate deviations of the code from the ideal design are named and switchable:
-     * AtomicExecute = FALSE (the code): Execute reads the database root (db.NomsRoot) BEFORE it takes h.mu
+     * AtomicExecute = FALSE (dolt before commit 6bdacfb; the exhaustive configs now use TRUE = the repaired code;
+       the trace spec keeps the two-step form, which also describes the repaired code - read, then the locked part -
+       and states the property with the Strict invariants): Execute reads the database root (db.NomsRoot) BEFORE it takes h.mu
        (commithook.go:505 vs :510), so a delayed call may overwrite nextHead with an OLDER root (action ExecLocked,
        history flag staleHappened).  AtomicExecute = TRUE models the proposed fix (read under h.mu).
      * InFlightAware = FALSE (the code): isCaughtUp() compares nextHead with lastPushedHead only.  While an
